@@ -8,6 +8,7 @@ ENGINES = {
     "mhroll": dict(src=["harness/mhroll.c"]),
     "bounds": dict(src=["harness/bounds.c", "harness/aesfam.c"]),
     "params": dict(src=["harness/params.c", "harness/aesfam.c", "harness/hashalgs.c"]),
+    "fips": dict(src=["harness/fips.c", "harness/aesfam.c", "harness/hashalgs.c"], ldflags=["-Wl,--wrap=_aes_self_tests", "-Wl,--wrap=_sha_self_tests"]),
     "trampeng": dict(src=["harness/trampeng.c", "harness/tramp.c", "harness/tramp.S", "harness/aesfam.c", "harness/hashalgs.c"], ldflags=["-rdynamic"]),
 }
 
@@ -378,5 +379,19 @@ CHECKS = {
               "inputs (GCM pre/one-shot/nt/stream, XTS raw/expanded, CBC, key expansion, aes_cbc_precomp, 5 hash managers, mh_sha1/mh_sha256/murmur incl. *_base, rolling, mask_gen) byte for byte"),
         assumptions=TRUST + ["documented codes are those the sources/param tests assign to each argument; when several arguments are bad any of their codes is accepted"],
         tasks=params_tasks, post=isal_cover_post, exhaustive_key="null_subset_calls", exhaustive_over="the NULL subsets of the pointer arguments of every isal_ entry point (part a)",
+    ),
+    "C13": dict(
+        level="fault_enumeration", evaluations=["fips_calls", "xts_key_pair_calls"], must_observe=["fips_calls", "xts_key_pair_calls", "entries_described"],
+        level_text=("fault enumeration: the finite space (exported isal_ entry point) x (self-test state: failed / passed / not run with an injected failing verdict / not run with a passing "
+                    "verdict) is enumerated completely, each cell with seeded random otherwise-valid arguments; XTS entries additionally with identical / last-byte-different / "
+                    "first-byte-different key pairs"),
+        rule=("FIPS_MODE build, self-test bodies intercepted with --wrap (counted; verdict injected: fail without running, fail after really running, pass without running, really run). "
+              "For every cell the return code must be SELF_TEST (approved algorithm while failed / failing), FIPS_INVALID_ALGO (MD5, SM3, multi-hash, rolling; every state) or 0; when a call "
+              "must be refused every argument object must be byte-identical afterwards and no dispatch slot (all 64 re-armed before the call) may have been resolved, i.e. no dispatched "
+              "crypto routine entered; on a first call the AES and SHA self-tests must each be entered exactly once, no slot may be resolved before they start, and the verdict must be "
+              "published. The entry list is checked against nm of the FIPS build. distinct_nontrivial = distinct (entry, state, injection mode) and (xts entry, key-pair variant)"),
+        assumptions=TRUST + ["crypto work is observed through resolution of re-armed dispatch slots (every approved algorithm reaches its kernels through a dispatched entry)"],
+        tasks=lambda tier: [dict(engine="fips", variant="fips", args=["--prop", "C13", "--from", f, "--count", c]) for (f, c) in split(48 if tier == "quick" else 4000, 8 if tier == "quick" else 16)],
+        post=isal_cover_post, exhaustive_key="fips_calls", exhaustive_over="(isal_ entry point) x (self-test state) cells",
     ),
 }
